@@ -13,9 +13,10 @@ MANIFEST = {
          "(watcher-queue application direct and through the 256-slot io_uring ctl ring, event filter, bare "
          "ERR/HUP merge, disarm of unknown fds, 1024/48 re-poll rule), uv__platform_invalidate_fd, "
          "uv_poll_init/start/stop/close and uv__poll_io, with a kernel interest list keyed by open file "
-         "description: for all op sequences, callback scripts and kernel batches — nfds exact, queue "
-         "duplicate-free, kernel interest == requested masks at every blocking epoll_pwait with no entry owned "
-         "by a closed handle, callbacks only for started handles with events ⊆ requested and backed by the "
+         "description: for all op sequences, callback scripts and kernel batches, ctl ring on or off — nfds exact, queue "
+         "duplicate-free, kernel interest map == requested masks at epoll_pwait with every entry owned by the live "
+         "handle of a descriptor that still refers to the same open file (unconditional: invariant FInv over every "
+         "reachable state), ring and direct ctl paths yield the same interest map, user ops never reach abort(), callbacks only for started handles with events ⊆ requested and backed by the "
          "batch, stale batch entries erased on stop/close (also for a re-used fd number), level-triggered "
          "re-reporting. The model is tied to the working tree by running the real library against the real "
          "kernel (interest list read back from /proc) and against scripted batches, diffing every line, plus "
@@ -34,6 +35,8 @@ MANIFEST = {
 }
 
 FINDINGS = [("second_handle.txt", "poll-stop-of-inactive-second-handle-unregisters-active-one", "interest-mismatch"),
+            # same family, by-the-book usage: A stopped, its fd closed, the number re-used by active handle B, then uv_close(A)
+            ("stopped_handle_fd_reused.txt", "poll-stop-of-inactive-second-handle-unregisters-active-one", "interest-mismatch"),
             ("ebadf_close_fd_first_dup.txt", "ebadf-stopped-handle-entry-survives-close-fd-first", "interest-closed-handle")]
 
 POLLIN, POLLPRI, POLLOUT, POLLERR, POLLHUP, POLLRDHUP = 1, 2, 4, 8, 16, 0x2000
